@@ -13,7 +13,7 @@ from ..model import Undecided
 from ..cfg import dotted, call_name, is_call, simple_name, unparse, const_value, contains, enclosing, implied
 from ..flow import Defs, depends, scoped_defs
 from ..decide import table, ret_kind
-from ..util import keyword, returns_of, calls_in, inside, order_key
+from ..util import component_of, keyword, returns_of, calls_in, inside, order_key
 
 NOT_DECIDED = 'that the error responses are well-formed (C18); numeric behaviour of the grid arithmetic for huge values'
 
@@ -62,10 +62,9 @@ def c16a(ctx):
     if ok:
         gx = tab.atom_objs[axl[0]].right
         gy = tab.atom_objs[ayl[0]].right
-        idx_ok = const_value(getattr(gx, 'slice', None)) == 0 and const_value(getattr(gy, 'slice', None)) == 1 and \
-            unparse(getattr(gx, 'value', gx)) == unparse(getattr(gy, 'value', gy))
-        gdef = defs.of(unparse(gx.value)) if isinstance(gx, ast.Subscript) and isinstance(gx.value, ast.Name) else []
-        lvl_ok = bool(gdef) and all(unparse(v) == 'self.grid_sizes[%s]' % zs for v, sel in gdef)
+        cx, cy = component_of(gx, defs), component_of(gy, defs)
+        idx_ok = cx is not None and cy is not None and cx[1] == 0 and cy[1] == 1 and cx[0] == cy[0]
+        lvl_ok = idx_ok and cx[0] == 'self.grid_sizes[%s]' % zs
         zlim_ok = unparse(tab.atom_objs[azl[0]].right) == 'self.levels'
         for asg, out, _ in tab.assignments():
             zbad = (not asg[a_in[0]]) if asg[a_str[0]] else (asg[az0[0]] or not asg[azl[0]])
